@@ -275,11 +275,30 @@ func runPlainFraming(toks []string) string {
 		} else if len(toks) > 4 && toks[4] == "mix" {
 			nl, nl2 = "\n", "\r\n"
 		}
-		head := fmt.Sprintf("POST /m%d HTTP/1.1%sHost: x%sContent-Length: %d%sX-Pad: ", i, nl, nl2, b, nl)
+		clName := "Content-Length"
+		end1, end2 := nl2, nl
+		if len(toks) > 4 && strings.HasPrefix(toks[4], "rnd") {
+			// every line end chosen by itself, the field name in any case (net/http folds it): "rnd<seed>"
+			seed, _ := strconv.Atoi(toks[4][3:])
+			st := uint32(seed*2654435761) + uint32(i)*40503 + 12345
+			pick := func(n int) int {
+				st = st*1664525 + 1013904223
+				return int(st>>16) % n
+			}
+			le := func() string {
+				if pick(2) == 0 {
+					return "\n"
+				}
+				return "\r\n"
+			}
+			nl, nl2, end1, end2 = le(), le(), le(), le()
+			clName = []string{"Content-Length", "content-length", "CONTENT-LENGTH", "Content-length"}[pick(4)]
+		}
+		head := fmt.Sprintf("POST /m%d HTTP/1.1%sHost: x%s%s: %d%sX-Pad: ", i, nl, nl2, clName, b, nl)
 		for len(head)+4 < h {
 			head += "p"
 		}
-		head += nl2 + nl
+		head += end1 + end2
 		body := make([]byte, b)
 		for j := range body {
 			body[j] = byte('a' + (i+j)%26)
